@@ -52,11 +52,15 @@ inductive IdC | absent | fresh | table | reg | bm | muc
 inductive Tag
   | vCard | query | time | chat | list | pref | fin | block | unblock | request | slot
   | openT | close | data | si | error | other
+  -- payloads of the application-style extension in the harness (namespace `Ns.app`), one per kind of object its handler
+  -- hands to the public helper `QXmpp::handleIqRequests<>()`: a fresh IQ (default type get), the received IQ itself,
+  -- an IQ typed result, an IQ typed error, a `QXmppStanza::Error`
+  | appFresh | appEcho | appResult | appErrorIq | appError
   deriving DecidableEq, Repr
 
 inductive Ns
   | vcard | roster | discoInfo | discoItems | version | time | archive | priv | rpc | mam | blocking
-  | upload | register | ibb | bytestreams | si | mucAdmin | mucOwner | other
+  | upload | register | ibb | bytestreams | si | mucAdmin | mucOwner | app | other
   deriving DecidableEq, Repr
 
 /-- One child element of the `<iq/>`.  `flag` / `flag2` are the payload details some handler branches on:
@@ -364,6 +368,50 @@ def uploadRequestBeh (s : Stanza) : Beh :=
   else if headIs s .request .upload then .swallow
   else .pass
 
+/-! #### An application extension that answers through the public helper (QXmppIqHandling.h / .cpp) -/
+
+/-- what the application's handler returned to `handleIqRequests<>()` (directly, inside a `std::variant`, or as the
+value of a `QXmppTask`, finished at once or later): an IQ object carrying one of the four types, or a stanza error -/
+inductive Returned | iqGet | iqSet | iqResult | iqError | stanzaError
+  deriving DecidableEq, Repr
+
+/-- `processHandleIqResult` + `sendIqReply`: a stanza error becomes an IQ of type error; an IQ object of type get or
+set (a fresh object is `get`, the handed-back request is `get` or `set`) is retyped `result`; result and error stay -/
+def wireType : Returned → IqType
+  | .iqGet | .iqSet | .iqResult => .result
+  | .iqError | .stanzaError => .error
+
+/-- the helper sends the object with `setTo(request.from)`, `setId(request.id)` through `reply(iq, metadata)`; were its
+type anything but result/error it would be a new request, not an answer -/
+def helperSend (ret : Returned) (e2ee : Bool) : Beh :=
+  match wireType ret with
+  | .result => { handled := true, sent := [⟨.result, .sender, true, e2ee⟩] }
+  | .error => { handled := true, sent := [⟨.error .modify .badRequest, .sender, true, e2ee⟩] }
+  | _ => { handled := true, sent := [], other := 1 }
+
+/-- which object the harness's application handler returns for which payload -/
+def returnedFor (s : Stanza) : Option Returned :=
+  match s.kids.head? with
+  | some k =>
+    if k.ns != .app then none else
+    match k.tag with
+    | .appFresh => some .iqGet
+    | .appEcho => some (if s.type = .set then .iqSet else .iqGet)
+    | .appResult => some .iqResult
+    | .appErrorIq => some .iqError
+    | .appError => some .stanzaError
+    | _ => none
+  | none => none
+
+/-- `handleIqRequests<…>(element, e2eeMetadata, client, handler)` in a new-style `handleStanza` (metadata passed on:
+`passMeta`) or `handleIqRequests<…>(element, client, handler)` in an old-style one -/
+def appBeh (passMeta : Bool) (s : Stanza) : Beh :=
+  if isReq s.type then
+    (match returnedFor s with
+     | some ret => helperSend ret (passMeta && s.dec)
+     | none => .pass)
+  else .pass
+
 /-- managers that only look at `<message/>` (carbons, pubsub) or do not override `handleStanza` at all -/
 def passBeh (_ : Stanza) : Beh := .pass
 
@@ -376,6 +424,8 @@ inductive Mgr
   -- no handleStanza override (QXmppClientExtension::handleStanza returns false)
   | accountMigration | attention | callInvite | externalService | httpUpload | jmi | messageReceipt
   | mix | moved | userLocation | userTune | atm | fileSharing
+  -- not bundled: application-style extensions of the harness built on the public helper (new-style / old-style)
+  | app | appOld
   deriving DecidableEq, Repr
 
 structure Row where
@@ -415,6 +465,8 @@ def rowOf : Mgr → Row
   | .uploadRequest => ⟨.uploadRequest, false, uploadRequestBeh⟩
   | .vcard => ⟨.vcard, false, vcardBeh⟩
   | .version => ⟨.version, false, versionBeh⟩
+  | .app => ⟨.app, true, appBeh true⟩
+  | .appOld => ⟨.appOld, false, appBeh false⟩
   | m => ⟨m, false, passBeh⟩
 
 /-- Which claim predicates each transcribed `handleStanza` body calls (`isXyz(` names, `requests<T>` = a type given
@@ -538,6 +590,6 @@ def allMgrs : List Mgr :=
    .muc, .mucRoom, .pubsub, .registration, .roster, .rpc, .transfer, .transferAccept, .transferAcceptRO, .transferDecline,
    .transferJob, .transferJobOpen, .transferJobOpenFail, .transferJobOpenShort, .transferJobFailed, .uploadRequest, .vcard, .version,
    .accountMigration, .attention, .callInvite, .externalService, .httpUpload, .jmi, .messageReceipt,
-   .mix, .moved, .userLocation, .userTune, .atm, .fileSharing]
+   .mix, .moved, .userLocation, .userTune, .atm, .fileSharing, .app, .appOld]
 
 end Qx.C08
